@@ -6,9 +6,11 @@ tied to the structural trie model `Verif.Model.Mpt` / `MptEnc` by `reprOf` / `no
 of a trie).  `H` is the hash function (SHA3-256 in the implementation and in the model driver).
 -/
 import Verif.Lemmas.MptCodec
+import Verif.Lemmas.MptPartial
 namespace Verif.Props.C14
 open Verif.Codec
-open Verif.Mpt (Bytes Nib Node key)
+open Verif.Mpt (Bytes Nib Node key WFn nibChar lookup)
+open Verif.Partial (Resolves Unfolds toP buildP depth lookupP ofOpt)
 
 /-- Encoding a well-formed node and decoding it yields the same node.  `ReprWF`: paths are hex digits, branch child keys
     have 32 bytes, version and origin fit 64 bits.  The value of a leaf / branch and the child key of an extension are
@@ -61,6 +63,30 @@ example : ∃ H : Bytes → Bytes, ∀ b, (H b).length = 32 := ⟨fun _ => List.
 theorem C14_self_keyed (H : Bytes → Bytes) (hH : ∀ b, (H b).length = 32) (t : Node) (pre : List Nib) :
     ∀ e ∈ nodesOf H t pre, e.1 = H (hashBytes e.2) ∧ decode (encode e.2) = .ok e.2 := fun e he =>
   ⟨(nodesOf_spec H hH t pre e he).2, decode_encode e.2 (nodesOf_spec H hH t pre e he).1⟩
+
+/-- reload: a store that holds every node of the canonical trie `t` under its key (`Resolves`; e.g. any memory, layered or
+    persistent store after the history that built `t`) reads back, from the root key, as `t` itself: the unfolding of
+    the store is the structural trie (no node missing), the model's `buildP` computes it, and every lookup over the
+    decoded bytes answers what `t` holds -/
+theorem C14_reload (H : Bytes → Bytes) (hH : ∀ b, (H b).length = 32) (get : Bytes → Option Bytes) (t : Node)
+    (pre : List Nib) (hw : WFn t) (h : Resolves H get t pre) :
+    Unfolds get (key H t pre) (toP t) ∧
+    ∀ n, depth (toP t) < n → buildP get n (key H t pre) = toP t ∧
+      ∀ p : List Nib, lookupP (buildP get n (key H t pre)) (p.map nibChar) = ofOpt (lookup t p) := by
+  have hu := Verif.Partial.unfolds_of_resolves H hH get t pre hw h
+  refine ⟨hu, fun n hn => ?_⟩
+  have hb := Verif.Partial.buildP_complete get _ _ hu n hn
+  exact ⟨hb, fun p => by rw [hb]; exact Verif.Partial.lookupP_toP t p⟩
+
+/-- non-vacuity: a canonical one-leaf trie and the store holding its node -/
+example : ∃ (H : Bytes → Bytes) (get : Bytes → Option Bytes) (t : Node), (∀ b, (H b).length = 32) ∧ WFn t ∧
+    Resolves H get t [] := by
+  refine ⟨fun _ => List.replicate 32 0, fun _ => some (encode (reprOf (fun _ => List.replicate 32 0) (.leaf 1 [] [65]) [])),
+    .leaf 1 [] [65], by simp, by simp [WFn], ?_⟩
+  intro e he
+  have : e.2 = reprOf (fun _ => List.replicate 32 0) (.leaf 1 [] [65]) [] := by
+    simp only [nodesOf, List.mem_singleton] at he; rw [he]
+  rw [this]
 
 /-- the one-pass computation run by the model driver (`modeld codec`, ops `store` / `save` / `snap`) is the
     specification: root key by `Verif.Mpt.key`, stored nodes by `nodesOf` -/
